@@ -50,11 +50,11 @@ let handle_k f =
   let url = bytes_of_str f.(2) and mat = n_of_dec f.(3) and prefix = n_of_dec f.(4) and id = n_of_dec f.(5)
   and value = unhex f.(6) and sch = parse_schema f.(7) in
   match new_key_serialization url value mat prefix id with
-  | None -> "err-ser|chk=ok"
+  | None -> "err-ser"
   | Some s0 ->
     let t = get_ktype url sch in
     match parse_key t s0 with
-    | None -> "err|chk=ok"
+    | None -> "err"
     | Some k ->
       match serialize_key t k with
       | None -> "MODEL-FAIL serialize of a parsed key"
@@ -66,24 +66,24 @@ let handle_k f =
           | Some (ps, pg) ->
             (match serialize_key (get_ktype (bytes_of_str f.(8)) ps) pg with
              | Some s -> ser_string s | None -> "?") in
-        "ok|" ^ ser_string s1 ^ "|" ^ text sch k.gk_fields ^ "|PUB:" ^ pub ^ "|chk=ok"
+        "ok|" ^ ser_string s1 ^ "|" ^ text sch k.gk_fields ^ "|PUB:" ^ pub ^ ""
 
 let handle_p f =
   let url = bytes_of_str f.(2) and prefix = n_of_dec f.(3) and value = unhex f.(4) and sch = parse_schema f.(5) in
   let t = get_ktype url sch in
   match parse_params t { tp_url = url; tp_value = value; tp_prefix = prefix } with
-  | None -> "err|chk=ok"
+  | None -> "err"
   | Some p ->
     match serialize_params t p with
     | None -> "MODEL-FAIL serialize of parsed parameters"
     | Some t1 ->
-      Printf.sprintf "ok|%s|%s|%s|%s|chk=ok" (str_of_bytes t1.tp_url) (dec_of_n t1.tp_prefix) (hexs t1.tp_value) (text sch p.gp_fields)
+      Printf.sprintf "ok|%s|%s|%s|%s" (str_of_bytes t1.tp_url) (dec_of_n t1.tp_prefix) (hexs t1.tp_value) (text sch p.gp_fields)
 
 let handle_w f =
   let sch = parse_schema f.(3) in
   match decode sch (unhex f.(4)) with
-  | None -> "err|chk=ok"
-  | Some m -> "ok|" ^ hexs (encode sch m) ^ "|" ^ text sch m ^ "|chk=ok"
+  | None -> "err"
+  | Some m -> "ok|" ^ hexs (encode sch m) ^ "|" ^ text sch m ^ ""
 
 let assoc_of (s : string) : (string * string) list =
   List.filter_map (fun kv -> match String.index_opt kv '=' with
@@ -109,7 +109,7 @@ let handle_h f =
     | _ -> failwith "entry") (split ';' f.(7)) in
   let ks = { pks_primary = primary; pks_keys = keys } in
   match handle_from_proto (dpar reg) ks with
-  | None -> "err|chk=ok"
+  | None -> "err"
   | Some es ->
     let shape es =
       "h[" ^ String.concat "," (List.map (fun e ->
@@ -137,7 +137,7 @@ let handle_h f =
     let pb = match public_handle (dpub reg pub_url) es with
       | Some pes -> (match write_cleartext dser pes with Some b -> hexs b | None -> "?")
       | None -> "-" in
-    "ok|" ^ shape es ^ "|" ^ hexs b1 ^ "|" ^ e1 ^ "|" ^ pb ^ "|chk=ok"
+    "ok|" ^ shape es ^ "|" ^ hexs b1 ^ "|" ^ e1 ^ "|" ^ pb ^ ""
 
 let handle (line : string) : string =
   let f = Array.of_list (String.split_on_char '|' line) in
